@@ -414,6 +414,16 @@ def main():
         .inst(bfr="0.005", bfa="feeb").create_bid("buyer", [(603, "q")], B1, (3, "q"), "2", "q", 600, 300) \
         .create_ask("seller", [(300, "base")], A1, "base", "q", "2", 300).match("exec", A1, B1, "2", 50).match("exec", A1, B1, "2", 50) \
         .match("exec", A1, B1, "2", 100).exits(owner_a="seller", owner_b="buyer").write()
+    # pro-rata shares of exactly 7 1/2 whose 28-digit quotient is 7.4999...: adding one half does not fit 96 bits
+    for tag, (total, rate, fee, rej) in (("fee9", (900, "0.01", 9, 150)), ("fee11", (1100, "0.01", 11, 350)), ("fee13", (1300, "0.01", 13, 550))):
+        H("c04_share_seven_and_a_half_" + tag, "partial reject after which the fee share is exactly 7 1/2 (repeating quotient)").env() \
+            .inst(bfr=rate, bfa="feeb").create_bid("buyer", [(total + fee, "q")], B1, (fee, "q"), "1", "q", total, total) \
+            .rev("reject_bid", "exec", B1, rej).query("get_bid", B1) \
+            .create_ask("seller", [(100, "base")], A1, "base", "q", "1", 100).match("exec", A1, B1, "1", 100).exits(owner_a="seller", owner_b="buyer").write()
+    H("c02_share_seven_and_a_half_fill", "a fill after which the fee share is exactly 7 1/2").env() \
+        .inst(bfr="0.01", bfa="feeb").create_bid("buyer", [(909, "q")], B1, (9, "q"), "1", "q", 900, 900) \
+        .create_ask("seller", [(900, "base")], A1, "base", "q", "1", 900).match("exec", A1, B1, "1", 150).query("get_bid", B1) \
+        .match("exec", A1, B1, "1", 100).exits(owner_a="seller", owner_b="buyer").write()
     H("c12_only_pending_asks", "fee changes while the ask side holds only asks awaiting approval").env().inst(afr="0.01", afa="feea") \
         .create_ask("seller", [(5, "cv")], A1, "cv", "q", "2", 5).modify("exec", afr="0.5", afa="feea").modify("exec", afr="", afa="") \
         .modify("exec", aattrs=["kyc"]).approve("appr", [(5, "base")], A1, "base", 5).modify("exec", afr="0.5", afa="feea").query("get_contract_info").write()
@@ -459,6 +469,27 @@ def main():
     h.inst(approvers=("appr", "appr2")).create_ask("seller", [(10, "cv")], A1, "cv", "q", "2", 10).approve("appr", [(10, "base")], A1, "base", 10) \
         .create_bid("buyer", [(20, "q")], B1, None, "2", "q", 20, 10).migrate(approvers=["appr2"]).query("get_contract_info") \
         .match("exec", A1, B1, "2", 4).exits(owner_a="seller", owner_b="buyer").rev("reject_ask", "exec", A1, 2).rev("cancel_ask", "seller", A1).write()
+    h = H("c08_second_approval_after_approver_dropped", "a flawless second approval of an approved ask whose approver a migration has dropped").env()
+    h.inst(approvers=("appr", "appr2")).create_ask("seller", [(10, "cv")], A1, "cv", "q", "2", 10).approve("appr", [(10, "base")], A1, "base", 10) \
+        .migrate(approvers=["appr2"]).approve("appr2", [(10, "base")], A1, "base", 10).query("get_ask", A1) \
+        .approve("appr", [(10, "base")], A1, "base", 10).exits(owner_a="seller", owner_b="buyer").rev("cancel_ask", "seller", A1).write()
+    h = H("c05_c10_marker_access_list_names_the_sender", "a restricted base whose access list grants everything to every account: roles still come from the configuration")
+    h.env(markers={"base": "Rx", "q": "Rx"}).inst().create_ask("seller", [(5, "cv")], A1, "cv", "q", "2", 5) \
+        .approve("mallory", [], A1, "base", 5).approve("seller", [], A1, "base", 5).approve("exec", [], A1, "base", 5).approve("appr", [], A1, "base", 5) \
+        .create_bid("buyer", [], B1, None, "2", "q", 10, 5).rev("expire_ask", "mallory", A1).rev("cancel_bid", "mallory", B1).match("mallory", A1, B1, "2", 5) \
+        .modify("mallory", executors=["mallory"]).match("exec", A1, B1, "2", 5).write()
+    for code in ("Z", "T"):
+        H("c07_c10_marker_of_type_" + code, "a marker whose type is neither coin nor restricted: funded by attached coins, paid by bank sends") \
+            .env(markers={"base": code, "q": code, "cv": code}).inst() \
+            .create_ask("seller", [(5, "base")], A1, "base", "q", "2", 5).create_ask("seller", [], A2, "base", "q", "2", 5) \
+            .create_bid("buyer", [(10, "q")], B1, None, "2", "q", 10, 5).create_bid("buyer", [], B2, None, "2", "q", 10, 5) \
+            .match("exec", A1, B1, "2", 3).exits(owner_a="seller", owner_b="buyer").write()
+    for tag, px in (("19th_decimal", "1.0000000000000000001"), ("28th_decimal", "1.0000000000000000000000000001"), ("below_19th", "0.9999999999999999999")):
+        big = 10 ** 19 if tag != "28th_decimal" else 10 ** 28
+        H("c01_price_a_hair_off_closing_the_bid_" + tag, "execution price differing from the limit only beyond the 18th decimal, on a size that makes the total whole").env() \
+            .inst().create_bid("other", [(5, "q")], B2, None, "1", "q", 5, 5) \
+            .create_bid("buyer", [(big, "q")], B1, None, "1", "q", big, big).create_ask("seller", [(big, "base")], A1, "base", "q", "1", big) \
+            .match("exec", A1, B1, px, big).match("exec", A1, B1, "1", big).exits(owner_a="seller", owner_b="buyer").rev("cancel_bid", "other", B2).write()
     H("c05_wasm_admin_as_sender", "privileged requests from the account the wasm module knows as the contract's admin").env().inst() \
         .create_ask("seller", [(5, "base")], A1, "base", "q", "2", 5).create_bid("buyer", [(10, "q")], B1, None, "2", "q", 10, 5) \
         .modify("admin", executors=["admin"]).rev("expire_ask", "admin", A1).rev("cancel_bid", "admin", B1).match("admin", A1, B1, "2", 5) \
